@@ -15,6 +15,10 @@ PROPS = {
                    "and marks the node, every raw staleness write notifies parents, setters notify, update() overrides produce the value "
                    "and clear the flag reading children through .value, the stop condition of mark_for_update is exactly (not stale and not "
                    "frozen), every graph edit ends in a cycle check. Decided per function on its CFG over all node classes found in the source."),
+    "C11": ("c11", "Structure of MultiFit: one cost argument per member and a plain sum; partition by is_chi2 with shared errors (data slots, joint inputs, no double "
+                   "counting, constraint cost of the sharing members kept); parameter nodes unified by replacement in every member graph; block assembly (diagonal blocks on "
+                   "consecutive edges, shared sources accumulated into both transposed off-diagonal blocks, enabled / axis guards, edges through the fit-index map); joint "
+                   "covariance formula; results pushed into members on all paths after they are produced; fix / release mirrored."),
     "C12": ("c12", "Typestate rule: every reader of the histogram count store is dominated by a flush of pending entries (or is flush-independent by "
                    "construction); index conventions of underflow/bins/overflow agree with the filler; path rules on the single-pass filler: the comparison "
                    "between entry and edge is `>=` (half-open bins), every loop path that consumes an entry increments exactly one count and records the "
